@@ -40,7 +40,9 @@ def confirm(pid):
     only = "-run '^(%s)$'" % "|".join(names) if names else ""  # the demonstration's tests, not the package's own (journald's fail without a daemon)
     res = {}
     for tags, genv in (("", None), ("-tags binary_log", None), ("", {"GOARCH": "386", "CGO_ENABLED": "0"}), ("-tags binary_log", {"GOARCH": "386", "CGO_ENABLED": "0"})):
-        if tags == "" and re.search(r"^//go:build .*binary_log", open(demo).read(), re.M):
+        if tags == "" and re.search(r"^//go:build (?!.*!binary_log).*binary_log", open(demo).read(), re.M):
+            continue
+        if tags != "" and re.search(r"^//go:build .*!binary_log", open(demo).read(), re.M):
             continue
         shutil.copy(demo, f"{wt}/{d}/zz_C_demo_test.go")
         base = sh(f"go test -vet=off -count=1 {only} {tags} ./{d}", wt, genv).stdout.strip().splitlines()[-1]
